@@ -15,6 +15,8 @@ class Verifier(Stmts):
     # ------------------------------------------------------------ builtin methods
     def call_builtin_method(self, st, r, name, args, kwargs, node):
         t = r.t
+        ph = getattr(self.reg, 'pre_method_hook', None)
+        if ph is not None: ph(self, st, r, name, args, node)       # observer: may add obligations / ghost updates, never changes the result
         m = getattr(self, 'bm_%s_%s' % (self.kind_of(t), name), None)
         if m is None:
             h = self.reg.find_model('%s.%s' % (self.kind_of(t), name))
@@ -270,7 +272,12 @@ class Verifier(Stmts):
     def bm_bytes_hex(self, st, r, args, kw, node):
         f = z3.Function('bytes_hex', sort_of(BYTES), z3.StringSort()); self.use_axiom('hex')
         return [(st, V(STR, f(r.z)))]
-    def bm_str_format(self, st, r, args, kw, node): return [(st, V(STR, fresh_z(STR, 'fmt')))]
+    def bm_str_format(self, st, r, args, kw, node):
+        h = self.reg.find_model('str.format')
+        if h is not None:
+            x = h(self, st, [r] + args, kw, node)
+            if x is not None: return x
+        return [(st, V(STR, fresh_z(STR, 'fmt')))]
     def bm_str_lower(self, st, r, args, kw, node):
         f = z3.Function('str_lower', z3.StringSort(), z3.StringSort()); return [(st, V(STR, f(r.z)))]
     def bm_str_upper(self, st, r, args, kw, node):
@@ -460,6 +467,8 @@ class Verifier(Stmts):
         for p, t in u.params.items():
             if callable(t) and not isinstance(t, T): fr[p] = t(self, st)
             else: fr[p] = self.fresh(st, t, p)
+        for p, t in (getattr(u, 'block_locals', None) or {}).items():
+            fr[p] = t(self, st) if (callable(t) and not isinstance(t, T)) else self.fresh(st, t, p)
         for p, t in u.params.items():
             v = fr[p]
             if isinstance(v.t, ObjT):
@@ -491,7 +500,22 @@ class Verifier(Stmts):
         self.vacuity = {'requires_sat': str(r)}
         if r == z3.unsat: raise Vacuous('%s: precondition is unsatisfiable' % u.dotted)
         old = st.fork(); self.unit_old = old
-        res = self.exec_block(fnode.body, st)
+        body = fnode.body
+        blk = getattr(u, 'block', None)
+        if blk is not None:
+            # block unit: statements [start, end) of the function body (top level), found by the text they start with.
+            # The statements before the block are NOT executed: what the block needs from them is the declared entry
+            # condition over u.block_locals (requires) -- an ASSUMED contract, listed in the evidence.
+            def find(marker, frm=0):
+                for i in range(frm, len(body)):
+                    if ast.unparse(body[i]).lstrip().startswith(marker): return i
+                return None
+            a = find(blk[0]); b = len(body) if blk[1] is None else (find(blk[1], (a or 0) + 1) if a is not None else None)
+            if a is None or b is None: raise AnchorLost('%s: block marker %r not found' % (u.dotted, blk[0] if a is None else blk[1]))
+            self.assume_note('BLOCK UNIT: only lines %d-%d of %s are verified; the statements before them are summarised by the assumed entry condition over %s'
+                             % (body[a].lineno, body[b - 1].end_lineno, u.qual, ', '.join(sorted(getattr(u, 'block_locals', {}) or {}))))
+            body = body[a:b]
+        res = self.exec_block(body, st)
         self.stats['paths'] = len(res)
         normal = 0
         for i, (x, o) in enumerate(res):
